@@ -140,7 +140,7 @@ def strBytes (s : String) : List Nat := s.toUTF8.toList.map (·.toNat)
 def stackBranch (l : Loaded) (programSize stackSize : Nat) (args : String) : Option Loaded := do
   let a := align4 (PROGRAM_START + programSize + stackSize)
   let l := setEr l 7 (a - 8)
-  let a := align4 (a + 88)
+  let a := align4 (a + Gen.SIZE_OF_TCB)
   let argsList := "prog.elf" :: splitWs args
   let l := setEr l 0 argsList.length
   let l := setEr l 1 a
